@@ -4,6 +4,6 @@ set -e
 cd "$(dirname "$0")"
 export CARGO_NET_OFFLINE=true
 cp -n /repo/Cargo.lock harness/Cargo.lock 2>/dev/null || true
-( cd harness && RUSTFLAGS=-Awarnings cargo build --release --offline )
+( cd harness && RUSTFLAGS=-Awarnings cargo build --release --offline --bins )
 mkdir -p evidence replays
 echo "setup ok"
